@@ -157,15 +157,16 @@ static void dump_tree(sbuf *o, const cJSON *n)
 }
 
 /* foreign (caller-owned) strings for constant keys / referenced strings: plain malloc with canaries */
-typedef struct fstr { struct fstr *next; unsigned char *base; size_t len; } fstr;
+typedef struct fstr { struct fstr *next; unsigned char *base; unsigned char *orig; size_t len; } fstr;
 static fstr *foreign_list;
 static char *foreign_string(const unsigned char *b, size_t n)
 {
     fstr *f = (fstr*)malloc(sizeof(fstr)); f->base = (unsigned char*)malloc(n + 1 + 16); f->len = n;
     memset(f->base, 0xC7, 8); memcpy(f->base + 8, b, n); f->base[8 + n] = 0; memset(f->base + 8 + n + 1, 0xC7, 7);
+    f->orig = (unsigned char*)malloc(n + 1); memcpy(f->orig, b, n); f->orig[n] = 0;   /* the library only borrows these bytes: they must still be there at the end */
     f->next = foreign_list; foreign_list = f; return (char*)f->base + 8;
 }
-/* returns number of damaged foreign strings (canaries) and frees them */
+/* returns number of damaged foreign strings (canaries, terminator, content) and frees them */
 static int foreign_release(void)
 {
     int bad = 0; fstr *f = foreign_list, *nx; size_t i;
@@ -173,7 +174,8 @@ static int foreign_release(void)
         for (i = 0; i < 8; i++) if (f->base[i] != 0xC7) bad++;
         for (i = 0; i < 7; i++) if (f->base[8 + f->len + 1 + i] != 0xC7) bad++;
         if (f->base[8 + f->len] != 0) bad++;
-        free(f->base); free(f); }
+        if (memcmp(f->base + 8, f->orig, f->len) != 0) bad++;
+        free(f->base); free(f->orig); free(f); }
     foreign_list = NULL; return bad;
 }
 static char *lib_string(const unsigned char *b, size_t n)
